@@ -307,6 +307,7 @@ func websocketFacts(p *pkgInfo, out *bytes.Buffer) error {
 	sec.run("table of valid received close codes (C14)", func(w *bytes.Buffer) error { return websocketFactsCloseCodes(p, w) })
 	sec.run("write lock discipline (C15)", func(w *bytes.Buffer) error { return websocketFactsLocking(p, w) })
 	sec.run("opening handshake (C13)", func(w *bytes.Buffer) error { return websocketFactsHandshake(p, w) })
+	sec.run("write deadline discipline (C13)", func(w *bytes.Buffer) error { return websocketFactsDeadline(p, w) })
 	return sec.err()
 }
 
@@ -519,4 +520,72 @@ func websocketFactsHandshake(p *pkgInfo, w *bytes.Buffer) error {
 		}
 	}
 	return fmt.Errorf("package-level keyGUID with a constant string value not found")
+}
+
+// websocketFactsDeadline: every function that writes to the transport (x.conn.Write) arms the transport's write deadline
+// with the deadline of THIS write before it writes — unconditionally, so that "no deadline" clears whatever an earlier
+// frame (a pong sent by the library, a WriteControl) had armed. A call of x.conn.SetWriteDeadline that sits under a
+// condition, loop or switch arm which does not also enclose the write does not count.
+func websocketFactsDeadline(p *pkgInfo, w *bytes.Buffer) error {
+	lws := analyseLockedWrites(p)
+	if len(lws) == 0 {
+		return fmt.Errorf("no call x.conn.Write(…) found in package websocket")
+	}
+	var names, unread []string
+	all := true
+	for _, lw := range lws {
+		type hit struct{ guarded bool }
+		var hits []hit
+		var stack []ast.Node
+		ast.Inspect(lw.fn.Body, func(n ast.Node) bool {
+			if n == nil {
+				stack = stack[:len(stack)-1]
+				return true
+			}
+			stack = append(stack, n)
+			ce, ok := n.(*ast.CallExpr)
+			if !ok {
+				return true
+			}
+			se, ok := ce.Fun.(*ast.SelectorExpr)
+			if !ok || se.Sel.Name != "SetWriteDeadline" || !hasSuffixPath(se.X, "conn") || ce.Pos() > lw.writePos {
+				return true
+			}
+			guarded := false
+			for _, anc := range stack[:len(stack)-1] {
+				switch anc.(type) {
+				case *ast.IfStmt, *ast.SwitchStmt, *ast.TypeSwitchStmt, *ast.CaseClause, *ast.ForStmt, *ast.RangeStmt, *ast.SelectStmt, *ast.CommClause, *ast.FuncLit:
+					if !(anc.Pos() <= lw.writePos && lw.writePos < anc.End()) {
+						guarded = true
+					}
+				}
+			}
+			hits = append(hits, hit{guarded})
+			return true
+		})
+		name := funcName(lw.fn)
+		names = append(names, name)
+		if len(hits) == 0 {
+			unread = append(unread, name)
+			continue
+		}
+		ok := false
+		for _, h := range hits {
+			if !h.guarded {
+				ok = true
+			}
+		}
+		all = all && ok
+	}
+	if len(unread) > 0 {
+		// the deadline is armed somewhere else (a helper, the caller): this reader does not follow it. The behaviour is
+		// decided by the correspondence run (transports that enforce the deadline, C13 `write_after_control_deadline`
+		// and `deadline.history`), so the model keeps its own value.
+		fmt.Fprintf(w, "/-- C13 fact. NOT READ FROM THE SOURCE for [%s] (no `x.conn.SetWriteDeadline` next to `x.conn.Write` there); for the\nothers: %s. The value is the model's; the correspondence run with deadline-enforcing transports decides it. -/\ndef writesArmOwnDeadline : Bool := %s\n",
+			strings.Join(unread, ", "), boolLean(all), boolLean(all))
+		return nil
+	}
+	fmt.Fprintf(w, "/-- C13 fact. Evidence: in each of [%s] a call `x.conn.SetWriteDeadline(…)` precedes `x.conn.Write(…)` and is not under\nany condition, loop or switch arm that does not also enclose the write: every frame is written under the deadline of its\nown write, and a write without a deadline clears what an earlier frame had armed. -/\ndef writesArmOwnDeadline : Bool := %s\n",
+		strings.Join(names, ", "), boolLean(all))
+	return nil
 }
